@@ -1322,19 +1322,33 @@ func (w *w1World) checkLiveness(cl *w1SimClient) {
 		}
 		// expiry as absolute simulated time: whole seconds since the run started
 		exp := connectAt.Truncate(time.Second) + time.Duration(cl.spec.ExpireInSec)*time.Second
+		expMin, expMax := exp, exp
 		base := w.startUnix
+		// the effective expiry is the one set by the refresh applied last; refreshes
+		// issued at the same instant are applied in an order the observer cannot know
+		var lastAt time.Duration = -1
 		for _, op := range w.nodeOps {
 			if op.Kind == "nrefresh" && op.User == cl.spec.User && op.Err == "" && op.At < closedAt && op.At > connectAt && op.N != 0 {
-				exp = time.Duration(int64(op.N)-base) * time.Second
+				e := time.Duration(int64(op.N)-base) * time.Second
+				if op.At != lastAt {
+					expMin, expMax, lastAt = e, e, op.At
+				} else {
+					if e < expMin {
+						expMin = e
+					}
+					if e > expMax {
+						expMax = e
+					}
+				}
 			}
 		}
 		s.Probe("nontrivial:C36")
-		if cl.isClosed() && cl.closeCode == DisconnectExpired.Code && closedAt < exp-tol {
-			s.Violate("C36", "expired-early", "connection closed as expired before its expiry", "client %d: expiry at %v (after refreshes), closed as expired at %v", cl.idx, exp, closedAt)
+		if cl.isClosed() && cl.closeCode == DisconnectExpired.Code && closedAt < expMin-tol {
+			s.Violate("C36", "expired-early", "connection closed as expired before its expiry", "client %d: expiry at %v (after refreshes), closed as expired at %v", cl.idx, expMin, closedAt)
 		}
-		due := exp + grace + time.Second + tol
+		due := expMax + grace + time.Second + tol
 		if closedAt > due && runEnd > due {
-			s.Violate("C36", "expired-missing", "expired connection not closed", "client %d: expiry at %v + grace %v, still open at %v (closed at %v code %d)", cl.idx, exp, grace, due, closedAt, cl.closeCode)
+			s.Violate("C36", "expired-missing", "expired connection not closed", "client %d: expiry at %v + grace %v, still open at %v (closed at %v code %d)", cl.idx, expMax, grace, due, closedAt, cl.closeCode)
 		}
 	}
 }
